@@ -254,7 +254,12 @@ int main (int argc, char *argv[]) {
             goto error2;
         }
         data = calloc(chunk_size, 1);
-        assert(data);
+        if(data == NULL) {
+            LOG_ERROR("Unable to allocate %lli bytes for chunk %lli\n",
+                      (long long) chunk_size,
+                      (long long) zck_get_chunk_number(idx));
+            goto error2;
+        }
         ssize_t read_size = zck_get_chunk_data(idx, data, chunk_size);
         if(read_size != chunk_size) {
             if(read_size < 0)
